@@ -75,6 +75,13 @@ fn so2_bound_choices(r: &mut Sm) -> Vec<Option<(f64, f64)>> {
         Some((-3.5, -2.9)),
         Some((-PI / 2.0, PI / 2.0)),
         Some((1.0, 3.0)),
+        // intervals that touch [-pi, pi] in a single point or not at all: the constructor
+        // must reject them; if it does not, sampling is exercised below
+        Some((PI, 4.0)),
+        Some((-4.0, -PI)),
+        Some((4.0, 5.0)),
+        Some((ulp_down(PI), PI)),
+        Some((-PI, ulp_up(-PI))),
     ];
     for _ in 0..4 {
         let a = r.range(-PI, PI);
@@ -288,8 +295,9 @@ fn check_spec<K: Kit>(ctx: &Ctx, kit: &K, seed: u64, n_samples: usize) {
     let name = spec.wrap.name();
     let sp = match guarded(|| kit.build()) {
         Ok(Ok(s)) => s,
-        Ok(Err(e)) => {
-            ctx.inconclusive(format!("setting not constructible: {} ({e})", spec.describe()));
+        Ok(Err(_)) => {
+            // the constructor rejects this setting (C12 judges whether it should): nothing to check
+            ctx.count("settings_rejected_by_constructor", 1);
             return;
         }
         Err(e) => {
